@@ -20,7 +20,7 @@ package main
 // main: 2 after a usage error, 0 for help, 1 after any parse / runtime / I/O
 // error, normal return (status 0) only when run succeeded.
 //@ func main
-//@   ghostinit closes = 0; reads = 0; ev_go = 0; ev_send_rerr = 0; ev_send_perr = 0; ev_close_inpc = 0; ev_close_done = 0; ev_recv_done = 0; ev_send_inpc = 0; ev_recv_rerr = 0; ev_recv_perr = 0; rp = 0; short = false
+//@   ghostinit closes = 0; reads = 0; ev_go = 0; ev_send_rerr = 0; ev_send_perr = 0; ev_close_inpc = 0; ev_close_done = 0; ev_recv_done = 0; ev_send_inpc = 0; ev_recv_rerr = 0; ev_recv_perr = 0; rp = 0; short = false; rfail = false
 //@   requires [C18] program_name_present: len(os.Args) >= 1
 //@   requires input_stream_has_a_length: g.rlen >= 0
 //@   assert [C18] usage_error_exits_2: at die#1: $exitcode == 2 && $err != nil
@@ -53,7 +53,7 @@ package main
 // run: the library does the work; the flags only select what is called.
 //@ func run
 //@   requires fresh_protocol: g.closes == 0 && g.reads == 0 && g.ev_go == 0 && g.ev_send_rerr == 0 && g.ev_send_perr == 0 && g.ev_close_inpc == 0 && g.ev_close_done == 0 && g.ev_recv_done == 0 && g.ev_send_inpc == 0 && g.ev_recv_rerr == 0 && g.ev_recv_perr == 0
-//@   requires fresh_stream: g.rp == 0 && !g.short && g.rlen >= 0
+//@   requires fresh_stream: g.rp == 0 && !g.short && g.rlen >= 0 && !g.rfail
 //@   assert [C18] text_input_goes_through_the_file_pipeline: at ParseFile#1: !a.bload
 //@   assert [C18] binary_input_is_loaded: at LoadProg#1: a.bload && $name == a.file
 //@   assert [C18] loaded_file_is_closed_here: at Close#1: a.bload
